@@ -232,7 +232,7 @@ func checkSpec(src string, withProcess bool) (first outcome, err error) {
 	for i := 0; i < reps; i++ {
 		d, err := derivation(src, i >= 4)
 		if err != nil {
-			if strings.Contains(err.Error(), "ComputeLALR1Kernels") || strings.Contains(err.Error(), "lookahead") {
+			if strings.Contains(err.Error(), "ComputeLALR1Kernels") || strings.Contains(err.Error(), "lookahead") || rec.QueuePanic(err) {
 				break // listed dependency findings (cyclic / unproductive grammars) are C06's and C14's subject
 			}
 			return first, fmt.Errorf("%v\nspecification:\n%s", err, src)
